@@ -819,3 +819,37 @@ R.contract(
     },
     bounded_note="mappings over the keys nullable / type / name",
 )
+
+
+# ------------------------------------------------------------------------------------------------- get_content_types: the media types DOCUMENTED for this response
+# content_type_conformance (verified above) compares the response's Content-Type with this list; the list must be the documented one - for OpenAPI 3 the media types
+# of the definition selected for the response's status; for Swagger 2 the operation's `produces`, the document's when the operation has none.
+R.nominal_methods["spec:OAS3WithDefinitions"] = {
+    "_get_response_definitions": lambda it, obj, a, k: it.ghost.__setitem__("selected", it.path.choose(
+        [(None, True), ((["scope"], {"description": "no content"}), True), ((["scope"], {"content": {"application/json": {}, "text/csv": {}}}), True), ((["scope"], {"content": {}}), True)], "selected-definition"))
+    or it.ghost["selected"]}
+R.contract(
+    OAS + "OpenApi30.get_content_types",
+    variant="documented",
+    prop="C04",
+    args={"self": Obj("spec:OAS3WithDefinitions"), "operation": Opq("Op"), "response": Opq("R")},
+    ghost={"selected": None},
+    raises=[],
+    ensures={
+        "the_media_types_of_the_definition_selected_for_this_response": "result == (list(ghost('selected')[1].get('content', {})) if ghost('selected') is not None else [])",
+    },
+    replayable=False,
+)
+R.contract(
+    OAS + "SwaggerV20.get_content_types",
+    variant="documented",
+    prop="C04",
+    args={"self": Obj(OAS + "SwaggerV20", raw_schema=DictOf(optional={"produces": Choice(["application/json"], ["text/plain", "application/xml"], [])})),
+          "operation": Obj("spec:Sw2Operation", definition=Obj("spec:Sw2Definition", raw=DictOf(optional={"produces": Choice(["application/json"], ["text/csv"], [])}))), "response": Opq("R")},
+    raises=[],
+    ensures={
+        "the_operations_produces_else_the_documents": "result == (operation.definition.raw['produces'] if ('produces' in operation.definition.raw and length(operation.definition.raw['produces']) > 0) "
+                                                      "else (self.raw_schema['produces'] if 'produces' in self.raw_schema else []))",
+    },
+    replayable=False,
+)
